@@ -69,7 +69,7 @@ REAL = ['asyncssh stream.py (SSHReader/SSHWriter/SSHStreamSession), '
         'process.py (SSHClientProcess/SSHServerProcess, redirection), '
         'channel, connection of both endpoints']
 STUB = ['event loop + clock', 'TCP', 'executor', 'OS randomness']
-PROBES = ['held_back_by_redirect_target', 'closed_while_source_feeds', 'server_hung_up_at_once', 'collect_output_polled', 'signal_in_stream', 'mode_editor', 'soft_eof_ended_a_call', 'redirect_target_failed', 'server_side_redirect', 'redirect_switched', 'redirect_concat', 'read_cancelled', 'async_iteration', 'mode_reader', 'mode_run', 'mode_redirect', 'text_mode',
+PROBES = ['redirect_sends_eof', 'held_back_by_redirect_target', 'closed_while_source_feeds', 'server_hung_up_at_once', 'collect_output_polled', 'signal_in_stream', 'mode_editor', 'soft_eof_ended_a_call', 'redirect_target_failed', 'server_side_redirect', 'redirect_switched', 'redirect_concat', 'read_cancelled', 'async_iteration', 'mode_reader', 'mode_run', 'mode_redirect', 'text_mode',
           'tiny_packets', 'readuntil_multi', 'readuntil_regex',
           'incomplete_read_at_eof', 'limit_overrun', 'exit_signal',
           'exit_status', 'redirect_process', 'redirect_file',
@@ -207,6 +207,9 @@ def gen_plan(rng):
         # fills up and holds the channel back, while stdout is read with
         # the drawn calls
         'err_slow_file': rng.choice([0, 0, 0, 0, 0, 1, 3, 8]),
+        # server-side redirect: EOF is sent by the redirect itself (the
+        # default) -- when the last of the two sources has ended
+        'srv_send_eof': rng.chance(50),
         # the command forwards two local sources instead of writing itself
         'srv_redirect': mode in ('reader', 'run') and rng.chance(15),
         'collect_poll': collect_poll,
@@ -721,7 +724,11 @@ def run_plan(plan, sched_seed=None, sched_replay=None):
             # (a small send buffer, so that the client's window matters)
             process.channel.set_write_buffer_limits(
                 high=plan.get('pump_high', 16))
-            await process.redirect(stdout=ro, stderr=re_, send_eof=False)
+            await process.redirect(stdout=ro, stderr=re_,
+                                   send_eof=bool(plan.get('srv_send_eof')))
+
+            if plan.get('srv_send_eof'):
+                sim.probes['redirect_sends_eof'] += 1
 
             async def pump(rd, parts, name):
                 gap = plan.get('pump_gap', [0, 0])[name == 'err']
